@@ -241,6 +241,12 @@ NOINST static void single_getters(sb_t *s, const char *kind, const char *id, con
 		sb_put(s, "\"%s\":{", path); FI(s, "known", q.available);
 		if (TRUTH(q.available)) { COMMA(s); FI(s, "state", q.state); }
 		sb_put(s, "}");
+	} else if (!strcmp(kind, "enum")) {
+		/* the enumeration getters over the board table: each call is one unit */
+		IDLIST(s, "boards_connected", bidib_get_boards_connected()); COMMA(s);
+		IDLIST(s, "connected_points", bidib_get_connected_points()); COMMA(s);
+		IDLIST(s, "connected_segments", bidib_get_connected_segments()); COMMA(s);
+		IDLIST(s, "connected_boosters", bidib_get_connected_boosters());
 	} else if (!strcmp(kind, "board")) {
 		snprintf(path, sizeof path, "board:%s", id ? id : "@null"); cur_path = path;
 		sb_put(s, "\"%s\":{", path);
